@@ -123,6 +123,8 @@ def concrete(inp, variant, values):
     """abstract input + container variant + a (rows x width) value matrix -> the object handed to the detector"""
     a = np.array(values, dtype=float).reshape(inp["rows"], inp["width"])
     if inp["frame"]:
+        if inp["names"] == "#range":          # pandas' default column labels 0..d-1 (`pd.DataFrame(values)`): names like any others
+            return pd.DataFrame(a)
         return pd.DataFrame(a, columns=inp["names"].split(","))
     if variant == "array2d":
         return a
@@ -167,6 +169,9 @@ def alphabet(kind, name=""):
             out.append({"frame": False, "rows": rows, "width": w, "names": "-"})
             for nm in ([",".join(NAMES[w])] + (["a,c"] if w == 2 else [])):
                 out.append({"frame": True, "rows": rows, "width": w, "names": nm})
+    # frames that carry pandas' default labels 0..d-1: those are their column names (never the names a, b, ... established before or after)
+    okrows = 1 if kind == "stream" else 3
+    out += [{"frame": True, "rows": okrows, "width": 1, "names": "#range"}, {"frame": True, "rows": okrows, "width": 2, "names": "#range"}]
     # no observation at all (an empty filter result, `df.iloc[0:0]`, a (0, d) array): neither "exactly one" nor "at least two"
     out += [{"frame": False, "rows": 0, "width": 1, "names": "-"}, {"frame": False, "rows": 0, "width": 2, "names": "-"},
             {"frame": True, "rows": 0, "width": 1, "names": "a"}]
